@@ -150,6 +150,14 @@ def cases(tier, seed, shard, nshards):
                     if k % nshards == shard:
                         yield {"k": "wrapping", "d": d, "a": a, "b": b, "host": host, "bcls": ["own", "generic"][(k // 3) % 2],
                                "op": ["union", "union_all", "intersect", "except_of", "minus"][k % 5], "tail": k % 4 == 0, "mode": ["inline", "param"][(k // 2) % 2]}
+    for d in DIALECT_CLASSES:
+        for stmt in PATH_STATEMENTS:
+            if stmt == "load" and d != "MySQLQuery":
+                continue
+            for tb in PATH_TABLES:
+                k += 1
+                if k % nshards == shard:
+                    yield {"k": "paths", "d": d, "stmt": stmt, "table": tb}
     # convention-sensitive leaves inside every operand slot of every term class (term-level nesting)
     from ..zoo import zoo
     for d in DIALECT_CLASSES:
@@ -705,6 +713,70 @@ def run_two_positions(case, mon):
     mon.nontrivial(case)
 
 
+PATH_STATEMENTS = {
+    "select": lambda Q, t: Q.from_(t).select(t.pcol, True).where(t.flag == True),  # noqa: E712
+    "setop": lambda Q, t: Q.from_(t).select(t.pcol).union(Q.from_(t).select(t.qcol)),
+    "insert": lambda Q, t: Q.into(t).insert(1, True),
+    "update": lambda Q, t: Q.update(t).set("pcol", True),
+    "delete": lambda Q, t: Q.from_(t).delete().where(t.flag == True),  # noqa: E712
+    "create": lambda Q, t: Q.create_table(t).columns(R()["Column"]("pcol", "INT", default=True)),
+    "create-as-select": lambda Q, t: Q.create_table("nt").as_select(Q.from_(t).select(t.pcol, True)),
+    "drop": lambda Q, t: Q.drop_table(t),
+    "drop-if-exists": lambda Q, t: Q.drop_table(t).if_exists(),
+    "load": lambda Q, t: Q.load("/f.csv").into(t),
+    "with": lambda Q, t: Q.with_(Q.from_(t).select(t.pcol, True), "c1").from_(R()["AliasedQuery"]("c1")).select("pcol"),
+}
+PATH_TABLES = {"name": lambda: "tpath", "table": lambda: R()["Table"]("tpath"), "schema-table": lambda: R()["Table"]("tpath", schema=("db", "sch")),
+               "database-chain": lambda: R()["Database"]("db").sch.tpath}
+
+
+def run_paths(case, mon):
+    """Every way of rendering a statement without saying how (str, repr, get_sql(), get_sql(None), get_parameterized_sql()) is the
+    rendering through the context of the class the statement was started from."""
+    r = R()
+    d = case["d"]
+    Q = r[d]
+    t = PATH_TABLES[case["table"]]()
+    if isinstance(t, str) and case["stmt"] not in ("create", "drop", "drop-if-exists", "load", "insert", "update"):
+        t = r["Table"](t)
+    try:
+        o = PATH_STATEMENTS[case["stmt"]](Q, t)
+        want = o.get_sql(contexts()[d])
+    except Exception as e:
+        mon.count("unbuildable")
+        mon.add("unbuildable", "paths:%s:%s" % (case["stmt"], type(e).__name__))
+        return
+    paths = {"str": lambda: str(o), "repr": lambda: repr(o)}
+    import inspect
+    prm = inspect.signature(type(o).get_sql).parameters.get("ctx")
+    if prm is not None and prm.default is None:  # (the context is optional for this class; a set operation has no default)
+        paths["get_sql()"] = lambda: o.get_sql()
+        paths["get_sql(None)"] = lambda: o.get_sql(None)
+    else:
+        mon.count("entry_paths_not_offered", 2)
+    if isinstance(o, r["QueryBuilder"]):
+        paths["get_parameterized_sql()"] = lambda: o.get_parameterized_sql()[0]
+        want_p = o.get_parameterized_sql(contexts()[d])[0]
+    for name, f in paths.items():
+        try:
+            got = f()
+        except TypeError:
+            mon.count("entry_paths_not_offered")  # (a set operation has no default for its context)
+            continue
+        except Exception as e:
+            mon.violation("entry-path:raises:%s:%s" % (case["stmt"], name), "%s of a %s %s statement raised %r" % (name, d, case["stmt"], e))
+            return
+        if name == "repr" and " object at 0x" in got:
+            continue  # (this class has no repr of its own: not a rendering)
+        mon.count("entry_paths_compared")
+        w = want_p if name == "get_parameterized_sql()" else want
+        if got != w:
+            mon.violation("entry-path-differs:%s:%s:%s" % (case["stmt"], name, DIALECT_OF[d] if d != "Query" else "generic"),
+                          "%s of a %s statement started from %s renders %r; through %s.SQL_CONTEXT it is %r" % (name, case["stmt"], d, got[:200], d, w[:200]))
+            return
+    mon.nontrivial(case)
+
+
 OPERAND_SHAPES = ["plain", "where", "ordered", "limited", "offset", "sliced", "ordered-limited", "distinct", "grouped", "for-update"]
 WRAP_HOSTS = ["top", "from", "in", "join", "cte", "insert-select"]
 WRAPS = {"Query": True, "PostgreSQLQuery": True, "OracleQuery": True, "MSSQLQuery": True, "MySQLQuery": False, "SQLLiteQuery": False}
@@ -800,6 +872,8 @@ def run_wrapping(case, mon):
 def run_case(case, mon):
     if case["k"] == "wrapping":
         return run_wrapping(case, mon)
+    if case["k"] == "paths":
+        return run_paths(case, mon)
     if case["k"] == "two-positions":
         return run_two_positions(case, mon)
     if case["k"] == "shortcut":
@@ -808,4 +882,4 @@ def run_case(case, mon):
 
 
 def FLOORS(tier):
-    return {"nested_renders": 5000, "probe_spans_compared": 3000, "hook_contexts_checked": 100000, "dialect_pairs_compared": 3000, "set_operands_inspected": 1500}
+    return {"nested_renders": 5000, "probe_spans_compared": 3000, "hook_contexts_checked": 100000, "dialect_pairs_compared": 3000, "set_operands_inspected": 1500, "entry_paths_compared": 800}
